@@ -296,8 +296,10 @@ func (n *NodeProcessor) SendWrite() (int, error) {
 				n.Logger.Error("Failed to truncate queue", zap.Uint64("node", n.nodeID), zap.Uint64("shardID", n.shardID), zap.Error(err))
 			}
 		} else {
-			// Try to skip it.
-			if err := n.queue.Advance(); err != nil {
+			// The head segment is exhausted: move on to the next segment, if any.
+			// (Advance must not be used here: a block appended since Current
+			// returned would be skipped.)
+			if err := n.queue.TrimExhaustedHead(); err != nil {
 				n.Logger.Error("Failed to advance queue", zap.Uint64("node", n.nodeID), zap.Uint64("shardID", n.shardID), zap.Error(err))
 			}
 		}
